@@ -1,1 +1,298 @@
-fn main() {}
+//! C14: building and scanning are thread-safe. loom explores all schedules of small thread
+//! harnesses over the real `build()` / `find_iter` code (scnr compiled with feature `verif_loom`,
+//! which routes std::sync / std::thread to loom); `Scanner: Send + Sync` is decided by a compile
+//! probe.
+
+use loom::thread;
+use refsem::evidence::{machinery, parse_args, Run, Samples, Tier, ViolAcc, Violation};
+use scnr::{Lookahead, Pattern, PeekResult, Scanner, ScannerBuilder, ScannerMode};
+use serde_json::{json, Map};
+use std::collections::BTreeSet;
+use std::sync::atomic::{AtomicUsize, Ordering};
+use std::sync::{Arc, Mutex};
+
+#[derive(Clone, Copy, Debug, PartialEq, Eq, PartialOrd, Ord)]
+enum Op {
+    BuildA,
+    BuildA2,
+    BuildAPrime,
+    BuildBad,
+    ScanShared,
+    PeekShared,
+}
+
+fn modes_a() -> Vec<ScannerMode> {
+    vec![
+        ScannerMode::new("INITIAL", vec![Pattern::new("a".into(), 0).with_lookahead(Lookahead::new(true, "b".into())), Pattern::new("b".into(), 1), Pattern::new("a+".into(), 2)], vec![(1, 1)]),
+        ScannerMode::new("SECOND", vec![Pattern::new("b+".into(), 0), Pattern::new("a".into(), 1)], vec![(1, 0)]),
+    ]
+}
+
+fn modes_a_prime() -> Vec<ScannerMode> {
+    // differs from A only in the polarity of the lookahead
+    let mut m = modes_a();
+    m[0] = ScannerMode::new("INITIAL", vec![Pattern::new("a".into(), 0).with_lookahead(Lookahead::new(false, "b".into())), Pattern::new("b".into(), 1), Pattern::new("a+".into(), 2)], vec![(1, 1)]);
+    m
+}
+
+fn modes_bad() -> Vec<ScannerMode> {
+    vec![ScannerMode::new("INITIAL", vec![Pattern::new("a".into(), 0), Pattern::new("(?i)b".into(), 1)], vec![])]
+}
+
+const INPUT: &str = "abaab bba";
+
+type Obs = Result<Vec<(usize, usize, usize)>, String>;
+
+fn scan(sc: &Scanner) -> Vec<(usize, usize, usize)> {
+    sc.find_iter(INPUT).map(|m| (m.token_type(), m.start(), m.end())).collect()
+}
+
+fn peek(sc: &Scanner) -> Vec<(usize, usize, usize)> {
+    let mut it = sc.find_iter(INPUT);
+    let mut v = vec![];
+    let _ = it.next();
+    match it.peek_n(3) {
+        PeekResult::Matches(m) | PeekResult::MatchesReachedEnd(m) => v.extend(m.iter().map(|m| (m.token_type(), m.start(), m.end()))),
+        PeekResult::MatchesReachedModeSwitch((m, t)) => {
+            v.extend(m.iter().map(|m| (m.token_type(), m.start(), m.end())));
+            v.push((usize::MAX, t, 0));
+        }
+        PeekResult::NotFound => {}
+    }
+    v.extend(it.map(|m| (m.token_type(), m.start(), m.end())));
+    v
+}
+
+fn run_op(op: Op, shared: &Scanner) -> Obs {
+    match op {
+        Op::BuildA | Op::BuildA2 => ScannerBuilder::new().add_scanner_modes(&modes_a()).build().map(|s| scan(&s)).map_err(|_| "err".to_string()),
+        Op::BuildAPrime => ScannerBuilder::new().add_scanner_modes(&modes_a_prime()).build().map(|s| scan(&s)).map_err(|_| "err".to_string()),
+        Op::BuildBad => ScannerBuilder::new().add_scanner_modes(&modes_bad()).build().map(|s| scan(&s)).map_err(|_| "err".to_string()),
+        Op::ScanShared => Ok(scan(shared)),
+        Op::PeekShared => Ok(peek(shared)),
+    }
+}
+
+/// Sequential expectation, computed without the cache and outside any model.
+fn expected(op: Op) -> Obs {
+    let unc = |m: Vec<ScannerMode>| ScannerBuilder::new().add_scanner_modes(&m).build_uncached();
+    match op {
+        Op::BuildA | Op::BuildA2 => unc(modes_a()).map(|s| scan(&s)).map_err(|_| "err".to_string()),
+        Op::BuildAPrime => unc(modes_a_prime()).map(|s| scan(&s)).map_err(|_| "err".to_string()),
+        Op::BuildBad => unc(modes_bad()).map(|s| scan(&s)).map_err(|_| "err".to_string()),
+        Op::ScanShared => Ok(scan(&unc(modes_a()).unwrap())),
+        Op::PeekShared => Ok(peek(&unc(modes_a()).unwrap())),
+    }
+}
+
+struct HarnessResult {
+    executions: usize,
+    outcomes: usize,
+    violation: Option<String>,
+    capped: bool,
+}
+
+/// Explores all schedules of one harness body: `scripts[t]` is run by thread t.
+fn explore(scripts: &[Vec<Op>], bound: Option<usize>, max_branches: usize) -> HarnessResult {
+    let execs = Arc::new(AtomicUsize::new(0));
+    let outcomes: Arc<Mutex<BTreeSet<String>>> = Arc::new(Mutex::new(BTreeSet::new()));
+    let problem: Arc<Mutex<Option<String>>> = Arc::new(Mutex::new(None));
+    let want: Vec<Vec<Obs>> = scripts.iter().map(|s| s.iter().map(|o| expected(*o)).collect()).collect();
+    let want_keys: usize = {
+        let mut k = BTreeSet::new();
+        for s in scripts {
+            for o in s {
+                match o {
+                    Op::BuildA | Op::BuildA2 => {
+                        k.insert("A");
+                    }
+                    Op::BuildAPrime => {
+                        k.insert("A'");
+                    }
+                    _ => {}
+                }
+            }
+        }
+        k.len() + 1 // + the shared scanner's configuration (A), built first
+    };
+    let want_keys = if scripts.iter().flatten().any(|o| matches!(o, Op::BuildA | Op::BuildA2)) { want_keys - 1 } else { want_keys };
+    let scripts_owned: Vec<Vec<Op>> = scripts.to_vec();
+    let (e2, o2, p2) = (execs.clone(), outcomes.clone(), problem.clone());
+    let mut b = loom::model::Builder::new();
+    b.preemption_bound = bound;
+    b.max_branches = max_branches;
+    let r = std::panic::catch_unwind(std::panic::AssertUnwindSafe(|| {
+        b.check(move || {
+            e2.fetch_add(1, Ordering::Relaxed);
+            // the shared scanner comes from the cache as well (so that scans race with builds of the same entry)
+            let shared = Arc::new(ScannerBuilder::new().add_scanner_modes(&modes_a()).build().expect("A builds"));
+            let hs: Vec<_> = scripts_owned
+                .iter()
+                .cloned()
+                .map(|script| {
+                    let shared = shared.clone();
+                    thread::spawn(move || {
+                        let mut obs = vec![];
+                        for op in script {
+                            let r = run_op(op, &shared);
+                            let keys = scnr::verif::cache_keys().len();
+                            obs.push((r, keys));
+                        }
+                        obs
+                    })
+                })
+                .collect();
+            let results: Vec<Vec<(Obs, usize)>> = hs.into_iter().map(|h| h.join().expect("thread panicked")).collect();
+            let final_keys = scnr::verif::cache_keys().len();
+            for (t, (got, want_t)) in results.iter().zip(want.iter()).enumerate() {
+                for (k, ((g, _), w)) in got.iter().zip(want_t.iter()).enumerate() {
+                    if g != w {
+                        *p2.lock().unwrap() = Some(format!("thread {t} op #{k}: observed {g:?}, the same call made sequentially yields {w:?}"));
+                    }
+                }
+            }
+            if final_keys != want_keys {
+                *p2.lock().unwrap() = Some(format!("after all threads joined the cache holds {final_keys} entries, expected {want_keys} (one per successfully built configuration)"));
+            }
+            o2.lock().unwrap().insert(format!("{:?}", results.iter().map(|r| r.iter().map(|x| x.1).collect::<Vec<_>>()).collect::<Vec<_>>()));
+        });
+    }));
+    let mut violation = problem.lock().unwrap().clone();
+    let mut capped = false;
+    if let Err(e) = r {
+        let msg = if let Some(s) = e.downcast_ref::<&str>() { s.to_string() } else if let Some(s) = e.downcast_ref::<String>() { s.clone() } else { "panic".into() };
+        if msg.contains("exceeded maximum number of branches") || msg.contains("Model exeeded maximum") {
+            capped = true;
+        } else if violation.is_none() {
+            violation = Some(format!("loom reported: {msg}"));
+        }
+    }
+    let n_outcomes = outcomes.lock().unwrap().len();
+    HarnessResult { executions: execs.load(Ordering::Relaxed), outcomes: n_outcomes, violation, capped }
+}
+
+fn sendsync_probe(viol: &mut ViolAcc) -> serde_json::Value {
+    let root = refsem::evidence::verif_root();
+    let out = std::process::Command::new("cargo")
+        .args(["build", "--offline", "--release", "--manifest-path"])
+        .arg(root.join("harness/sendsync_probe/Cargo.toml"))
+        .env("CARGO_TARGET_DIR", root.join("harness/target/probe"))
+        .env("CARGO_NET_OFFLINE", "true")
+        .output();
+    match out {
+        Err(e) => machinery(&format!("cannot run cargo for the Send/Sync probe: {e}")),
+        Ok(o) => {
+            let err = String::from_utf8_lossy(&o.stderr).to_string();
+            if o.status.success() {
+                json!({"probe": "fn f<T: Send + Sync>() {} f::<scnr::Scanner>() compiles", "result": "Scanner: Send + Sync"})
+            } else if err.contains("E0277") && (err.contains("cannot be sent between threads safely") || err.contains("cannot be shared between threads safely")) {
+                let first: String = err.lines().filter(|l| l.contains("cannot be") || l.contains("within `")).take(4).collect::<Vec<_>>().join(" | ");
+                viol.add("", || Violation { key: String::new(), summary: format!("scnr::Scanner is not Send + Sync: {first}"), replay: json!({"probe": "harness/sendsync_probe", "command": "cargo build --offline --manifest-path harness/sendsync_probe/Cargo.toml", "rustc": first}) });
+                json!({"result": "Scanner is NOT Send + Sync"})
+            } else {
+                machinery(&format!("the Send/Sync probe does not compile for another reason:\n{}", err.lines().filter(|l| l.starts_with("error")).take(5).collect::<Vec<_>>().join("\n")))
+            }
+        }
+    }
+}
+
+fn main() {
+    let (prop, tier, _) = parse_args();
+    if prop != "C14" {
+        machinery("loomcheck only knows C14");
+    }
+    std::panic::set_hook(Box::new(|_| {}));
+    let mut run = Run::new("C14", tier);
+    let mut viol = ViolAcc::default();
+    let probe = sendsync_probe(&mut viol);
+
+    let ops = [Op::BuildA, Op::BuildAPrime, Op::BuildBad, Op::ScanShared, Op::PeekShared];
+    let mut bodies: Vec<Vec<Vec<Op>>> = vec![];
+    // two threads, one op each (all ordered pairs incl. equal ops)
+    for a in ops {
+        for b in ops {
+            bodies.push(vec![vec![a], vec![b]]);
+        }
+    }
+    // two threads, two ops each: a build followed by anything, against the same
+    let seconds = [Op::BuildA2, Op::BuildAPrime, Op::ScanShared];
+    for a in [Op::BuildA, Op::BuildAPrime, Op::BuildBad] {
+        for a2 in seconds {
+            for b in [Op::BuildA, Op::BuildAPrime, Op::BuildBad] {
+                for b2 in seconds {
+                    bodies.push(vec![vec![a, a2], vec![b, b2]]);
+                }
+            }
+        }
+    }
+    // three threads, one op each (multisets: order of threads does not matter)
+    for (i, a) in ops.iter().enumerate() {
+        for (j, b) in ops.iter().enumerate().skip(i) {
+            for c in ops.iter().skip(j) {
+                bodies.push(vec![vec![*a], vec![*b], vec![*c]]);
+            }
+        }
+    }
+    if tier == Tier::Thorough {
+        // three threads, two ops each, builds only
+        for a in [Op::BuildA, Op::BuildAPrime] {
+            for b in [Op::BuildA, Op::BuildBad] {
+                bodies.push(vec![vec![a, Op::BuildA2], vec![b, Op::BuildAPrime], vec![Op::BuildA, Op::ScanShared]]);
+            }
+        }
+    }
+    let bound = None;
+    let mut total_exec = 0usize;
+    let mut total_outcomes = 0usize;
+    let mut capped = 0usize;
+    let mut samples = Samples::new(6);
+    let mut multi_outcome_bodies = 0usize;
+    for body in &bodies {
+        let r = explore(body, bound, 100_000);
+        total_exec += r.executions;
+        total_outcomes += r.outcomes;
+        if r.outcomes > 1 {
+            multi_outcome_bodies += 1;
+        }
+        if r.capped {
+            capped += 1;
+        }
+        if let Some(v) = r.violation {
+            viol.add("", || Violation { key: String::new(), summary: format!("threads {body:?}: {v}"), replay: json!({"threads": format!("{body:?}"), "shared_scanner": "built through the cache before the threads start", "input": INPUT, "problem": v, "how": "loom::model over scnr built with feature verif_loom; every thread runs its ops in order"}) });
+        }
+        if samples.items.len() < 6 && r.executions > 50 {
+            samples.push(|| json!({"threads": format!("{body:?}"), "executions": r.executions, "distinct_key_count_observations": r.outcomes}));
+        }
+        if run.elapsed() > if tier == Tier::Quick { 240.0 } else { 1500.0 } {
+            capped += 1;
+            break;
+        }
+    }
+    let n_dis = viol.total();
+    viol.flush(&mut run);
+    let mut cov = Map::new();
+    cov.insert("states".into(), json!(total_exec));
+    cov.insert("transitions".into(), json!(total_exec));
+    cov.insert("traces_validated_against_impl".into(), json!(total_exec));
+    cov.insert("samples".into(), json!(samples.items));
+    cov.insert("evaluations".into(), json!(total_exec));
+    cov.insert("distinct_nontrivial".into(), json!(total_outcomes));
+    cov.insert("rule".into(), json!("one evaluation = one complete schedule (loom execution) of a harness body running the real build()/find_iter/peek_n code; loom's DPOR enumerates all schedules of a body (preemption bound: none); distinct_nontrivial = number of distinct vectors of cache sizes observed by the threads right after their operations, summed over bodies (more than one per body means the threads really raced on the cache)"));
+    cov.insert("exhaustive".into(), json!(capped == 0));
+    cov.insert("harness_bodies".into(), json!(bodies.len()));
+    cov.insert("bodies_with_more_than_one_observed_outcome".into(), json!(multi_outcome_bodies));
+    cov.insert("bodies_capped".into(), json!(capped));
+    cov.insert("preemption_bound".into(), json!("none"));
+    cov.insert("send_sync_probe".into(), probe);
+    cov.insert("operations".into(), json!(["build(A)", "build(A) again", "build(A' = A with the lookahead polarity flipped)", "build(Bad = unsupported construct)", "scan with a shared Arc<Scanner> (built through the cache)", "find_iter + next + peek_n(3) + drain on the shared scanner"]));
+    cov.insert("disagreeing_bodies".into(), json!(n_dis));
+    run.finish(
+        "model_checking",
+        cov,
+        &[
+            "scheduling points exist only where the code synchronises (std::sync::{RwLock, Mutex, Condvar, atomic, LazyLock, mpsc} and std::thread are routed to loom by the std facade); std::sync::Arc stays std's, its reference counts are not scheduling points",
+            "unsynchronised accesses introduced through `unsafe` are invisible to loom",
+            "Scanner: Send + Sync is a type-system fact decided by a compile probe, outside the exploration",
+        ],
+    )
+}
